@@ -12,6 +12,7 @@ import (
 	"encoding/json"
 	"flag"
 	"fmt"
+	"go/token"
 	"os"
 	"path/filepath"
 	"runtime/debug"
@@ -97,6 +98,16 @@ var lastBadOrigin *Origin
 // of a standard-library / dependency function, a constant, or a parameter of a baseline function.
 func definiteOrigin(p *Prog, o *Origin) bool {
 	switch x := o.V.(type) {
+	case *ssa.Const:
+		return os.Getenv("RT_CONST_DEFINITE") != ""
+	case *ssa.Global:
+		return x.Pkg != nil && !isRepoPath(x.Pkg.Pkg.Path())
+	case *ssa.UnOp:
+		// the value of a package-level variable of the standard library or a dependency (http.DefaultTransport …)
+		if g, ok := x.X.(*ssa.Global); ok && x.Op == token.MUL {
+			return g.Pkg != nil && !isRepoPath(g.Pkg.Pkg.Path())
+		}
+		return false
 	case *ssa.Parameter:
 		f := x.Parent()
 		return f != nil && !isTransparent(f) && inventory[short(f.String())]
@@ -114,14 +125,31 @@ func definiteOrigin(p *Prog, o *Origin) bool {
 func (c *Ctx) obI(rule string, in ssa.Instruction, construct string, ok bool, what, detail string) {
 	fn := "?"
 	if in != nil && in.Parent() != nil {
-		fn = short(in.Parent().String())
+		fn = obFnName(in.Parent())
 	}
 	c.ob(rule, fn, construct, c.P.InstrPos(in), ok, what, detail)
 }
 
 // obF is ob positioned at a function.
 func (c *Ctx) obF(rule string, f *ssa.Function, construct string, ok bool, what, detail string) {
-	c.ob(rule, short(f.String()), construct, c.P.Pos(f.Pos()), ok, what, detail)
+	c.ob(rule, obFnName(f), construct, c.P.Pos(f.Pos()), ok, what, detail)
+}
+
+// obFnName names a function in obligation keys: under its baseline name when the function (or, for a function
+// literal, the named function it sits in) was merely renamed — keys, and with them the known findings, are stable
+// under renames.
+func obFnName(f *ssa.Function) string {
+	s := short(f.String())
+	root := f
+	for root.Parent() != nil {
+		root = root.Parent()
+	}
+	if curProg != nil && curProg.ti != nil {
+		if a, ok := curProg.ti.alias[root]; ok {
+			return a + strings.TrimPrefix(s, short(root.String()))
+		}
+	}
+	return s
 }
 
 // obRF / obRI / obR record RECOGNITION obligations: "the rule found the mechanism it is about" (a call, a loop, a
@@ -241,6 +269,11 @@ func main() {
 		// named types and package-level variables of the library: what is not listed here is NOVEL to the baseline
 		fmt.Println("\nvar typeInventory = map[string]bool{")
 		for _, ln := range prog.namedTypeLines() {
+			fmt.Println(ln)
+		}
+		fmt.Println("}")
+		fmt.Println("\nvar typeShapeInventory = map[string]string{")
+		for _, ln := range prog.typeShapeLines() {
 			fmt.Println(ln)
 		}
 		fmt.Println("}")
